@@ -102,6 +102,9 @@ type client struct {
 	recvsMu sync.RWMutex
 	recvs   map[uint32]chan *protocol.Packet
 
+	// stateMu guards authInfo, lastKeepaliveId and lastPongAt: they are shared
+	// by the keepalive, dispatcher and reconnect goroutines and AuthInfo callers
+	stateMu         sync.Mutex
 	lastKeepaliveId uint32
 	lastPongAt      time.Time
 	reconnectCount  int
@@ -149,7 +152,27 @@ func (c *client) Dial(ctx context.Context, u string, handshake *protocol.Handsha
 }
 
 func (c *client) AuthInfo() *control.AuthResponse {
+	c.stateMu.Lock()
+	defer c.stateMu.Unlock()
 	return c.authInfo
+}
+
+func (c *client) setAuthInfo(info *control.AuthResponse) {
+	c.stateMu.Lock()
+	c.authInfo = info
+	c.stateMu.Unlock()
+}
+
+func (c *client) setLastKeepaliveId(id uint32) {
+	c.stateMu.Lock()
+	c.lastKeepaliveId = id
+	c.stateMu.Unlock()
+}
+
+func (c *client) setLastPongAt(t time.Time) {
+	c.stateMu.Lock()
+	c.lastPongAt = t
+	c.stateMu.Unlock()
 }
 
 func (c *client) dial(ctx context.Context, dialer DialConnFunc) (err error) {
@@ -204,7 +227,7 @@ func (c *client) auth() error {
 		return errors.Wrap(err, "auth unmarshal res")
 	}
 
-	c.authInfo = &info
+	c.setAuthInfo(&info)
 
 	return nil
 }
@@ -252,7 +275,7 @@ func (c *client) reconnecting() {
 				// budget counts consecutive failures, and heartbeats of
 				// the replaced connection are no longer awaited
 				c.reconnectCount = 0
-				c.lastKeepaliveId = 0
+				c.setLastKeepaliveId(0)
 				if c.afterReconnected != nil {
 					c.afterReconnected()
 				}
@@ -322,7 +345,7 @@ func (c *client) reconnect() error {
 	}
 
 	// server needn't auth
-	if c.authInfo == nil {
+	if c.AuthInfo() == nil {
 		return nil
 	}
 
@@ -336,7 +359,7 @@ func (c *client) reconnect() error {
 
 func (c *client) reconnectDial() error {
 	res, err := c.Do(c.Context, &Request{Cmd: uint32(control.Command_CMD_RECONNECT), Body: &control.ReconnectRequest{
-		SessionId: c.authInfo.SessionId,
+		SessionId: c.AuthInfo().SessionId,
 		Metadata:  c.connectMetadata,
 	}}, RequestTimeout(c.dialOptions.AuthTimeout))
 
@@ -356,18 +379,19 @@ func (c *client) reconnectDial() error {
 		return errors.Wrap(err, "reconnect unmarshal")
 	}
 
-	c.authInfo = &info
+	c.setAuthInfo(&info)
 	c.reconnectCount = 0
-	c.lastKeepaliveId = 0
+	c.setLastKeepaliveId(0)
 	return nil
 }
 
 func (c *client) isAuthExpired() bool {
-	if c.authInfo == nil {
+	info := c.AuthInfo()
+	if info == nil {
 		return true
 	}
 
-	expireAt := time.Unix(c.authInfo.GetExpires()/1000-10, c.authInfo.GetExpires()%1000*int64(time.Millisecond))
+	expireAt := time.Unix(info.GetExpires()/1000-10, info.GetExpires()%1000*int64(time.Millisecond))
 	return time.Since(expireAt) >= 0
 
 }
@@ -498,14 +522,18 @@ func (c *client) keepalive() {
 	t := time.NewTicker(c.dialOptions.Keepalive)
 
 	now := time.Now()
-	c.lastPongAt = now
+	c.setLastPongAt(now)
 
 	check := func() error {
-		if c.lastKeepaliveId == 0 {
+		c.stateMu.Lock()
+		id, pongAt := c.lastKeepaliveId, c.lastPongAt
+		c.stateMu.Unlock()
+
+		if id == 0 {
 			return nil
 		}
 
-		if d := time.Since(c.lastPongAt); d > c.dialOptions.KeepaliveTimeout {
+		if d := time.Since(pongAt); d > c.dialOptions.KeepaliveTimeout {
 			return errors.Errorf("keepalive timeout %s", d.String())
 		}
 
@@ -539,7 +567,7 @@ func (c *client) keepalive() {
 			return err
 		}
 
-		c.lastKeepaliveId = id
+		c.setLastKeepaliveId(id)
 
 		return nil
 	}
@@ -665,7 +693,7 @@ func (c *client) handlePong(packet *protocol.Packet) {
 		c.onPong(packet)
 	}
 
-	c.lastPongAt = time.Now()
+	c.setLastPongAt(time.Now())
 }
 
 // register creates the waiter of request rid; the returned func removes it
